@@ -60,25 +60,277 @@ func (f Fact) R(v ssa.Value) ssa.Value {
 // Blocks listed in `stop` are entered but not left.
 func reach(start *ssa.BasicBlock, cuts Cuts, stop map[*ssa.BasicBlock]bool) map[*ssa.BasicBlock]bool {
 	seen := map[*ssa.BasicBlock]bool{}
-	st := []*ssa.BasicBlock{start}
+	// mask[b]: which successor edges of b have been released so far (bit k = k-th successor).
+	// A block that ends in a test of a phi defined in the same block ("did the inlined helper
+	// return an error?") releases, for each way it is entered, only the successors that the value
+	// carried on that entry edge can select — jump threading, so that a join followed by a re-test
+	// does not merge the helper's success and failure paths.
+	mask := map[*ssa.BasicBlock]uint{}
+	type item struct {
+		b    *ssa.BasicBlock
+		bits uint
+	}
+	all := func(b *ssa.BasicBlock) uint { return (1 << uint(len(b.Succs))) - 1 }
+	st := []item{{start, all(start)}}
 	for len(st) > 0 {
-		b := st[len(st)-1]
+		it := st[len(st)-1]
 		st = st[:len(st)-1]
-		if seen[b] {
+		b := it.b
+		newBits := it.bits &^ mask[b]
+		if seen[b] && newBits == 0 {
 			continue
 		}
 		seen[b] = true
+		mask[b] |= it.bits
 		if stop[b] {
 			continue
 		}
+		sm := staticMask(b)
 		for k, s := range b.Succs {
-			if !cuts[Edge{b.Index, k}] {
-				st = append(st, s)
+			if newBits&(1<<uint(k)) == 0 || sm&(1<<uint(k)) == 0 || cuts[Edge{b.Index, k}] {
+				continue
 			}
+			st = append(st, item{s, threadMask(b, s)})
 		}
 	}
 	return seen
 }
+
+// staticMask removes the successor of a nil test whose operand can never be nil (a sentinel error,
+// a freshly built error): `if errFull != nil {…} else {…}` has no else in practice.
+func staticMask(b *ssa.BasicBlock) uint {
+	full := uint(1<<uint(len(b.Succs))) - 1
+	iff, ok := lastIf(b)
+	if !ok || len(b.Succs) != 2 {
+		return full
+	}
+	c, pol := iff.Cond, true
+	for {
+		if u, ok := c.(*ssa.UnOp); ok && u.Op == token.NOT {
+			c, pol = u.X, !pol
+			continue
+		}
+		break
+	}
+	bo, ok := c.(*ssa.BinOp)
+	if !ok || (bo.Op != token.EQL && bo.Op != token.NEQ) {
+		return full
+	}
+	x, y := bo.X, bo.Y
+	if isNilConst(x) {
+		x, y = y, x
+	}
+	if !isNilConst(y) || !IntrinsicNonNil(x) {
+		return full
+	}
+	// the test `x != nil` is always true (`x == nil` always false)
+	always := (bo.Op == token.NEQ) == pol
+	if always {
+		return 1 // only the true successor
+	}
+	return 2
+}
+
+// threadMask: the successors of block j that can be taken when j is entered from pred.
+func threadMask(pred, j *ssa.BasicBlock) uint {
+	full := uint(1<<uint(len(j.Succs))) - 1
+	iff, ok := lastIf(j)
+	if !ok || len(j.Succs) != 2 || len(j.Preds) < 2 {
+		return full
+	}
+	pi := -1
+	for k, p := range j.Preds {
+		if p == pred {
+			if pi >= 0 {
+				return full // the same block on two edges: do not distinguish
+			}
+			pi = k
+		}
+	}
+	if pi < 0 {
+		return full
+	}
+	t, f := decidePhiTest(iff.Cond, j, pi, pred)
+	m := uint(0)
+	if t {
+		m |= 1
+	}
+	if f {
+		m |= 2
+	}
+	if m == 0 {
+		return full
+	}
+	return m
+}
+
+// decidePhiTest evaluates condition c of block j for entry edge pi: can it be true, can it be false?
+func decidePhiTest(c ssa.Value, j *ssa.BasicBlock, pi int, pred *ssa.BasicBlock) (canTrue, canFalse bool) {
+	switch x := c.(type) {
+	case *ssa.UnOp:
+		if x.Op == token.NOT {
+			t, f := decidePhiTest(x.X, j, pi, pred)
+			return f, t
+		}
+	case *ssa.Phi:
+		if x.Block() != j || pi >= len(x.Edges) {
+			return true, true
+		}
+		if v, ok := isBoolConst(x.Edges[pi]); ok {
+			return v, !v
+		}
+	case *ssa.BinOp:
+		if x.Op != token.EQL && x.Op != token.NEQ {
+			return true, true
+		}
+		a, b := x.X, x.Y
+		if isNilConst(a) {
+			a, b = b, a
+		}
+		ph, ok := a.(*ssa.Phi)
+		if !ok || !isNilConst(b) || ph.Block() != j || pi >= len(ph.Edges) {
+			return true, true
+		}
+		v := ph.Edges[pi]
+		isNil, known := false, false
+		switch {
+		case isNilConst(v):
+			isNil, known = true, true
+		case knownNonNil(v, pred):
+			isNil, known = false, true
+		}
+		if !known {
+			return true, true
+		}
+		eq := x.Op == token.EQL
+		if isNil == eq {
+			return true, false
+		}
+		return false, true
+	}
+	return true, true
+}
+
+// knownNonNil: value v cannot be nil when control is in block b — it is a freshly built value, or
+// b is reached only through a branch that tested v != nil.
+func knownNonNil(v ssa.Value, b *ssa.BasicBlock) bool {
+	switch x := v.(type) {
+	case *ssa.MakeInterface, *ssa.Alloc, *ssa.MakeMap, *ssa.MakeSlice, *ssa.MakeChan, *ssa.MakeClosure, *ssa.Function:
+		return true
+	case *ssa.Call:
+		n := CalleeName(&x.Call)
+		if strings.HasPrefix(n, "fmt.Errorf") || strings.HasPrefix(n, "errors.New") {
+			return true
+		}
+	}
+	for hops := 0; hops < 6 && b != nil; hops++ {
+		if len(b.Preds) != 1 {
+			return false
+		}
+		q := b.Preds[0]
+		if iff, ok := lastIf(q); ok && len(q.Succs) == 2 && q.Succs[0] != q.Succs[1] {
+			pol := q.Succs[0] == b
+			c := iff.Cond
+			for {
+				if u, ok := c.(*ssa.UnOp); ok && u.Op == token.NOT {
+					c, pol = u.X, !pol
+					continue
+				}
+				break
+			}
+			if bo, ok := c.(*ssa.BinOp); ok && (bo.Op == token.EQL || bo.Op == token.NEQ) {
+				x, y := bo.X, bo.Y
+				if isNilConst(x) {
+					x, y = y, x
+				}
+				if x == v && isNilConst(y) && (bo.Op == token.NEQ) == pol {
+					return true
+				}
+			}
+		}
+		b = q
+	}
+	return false
+}
+
+// ThreadedValue resolves a phi that merges the results of an inlined helper's return statements
+// to the single value it can have at its uses: when the block that defines the phi ends in a
+// threadable test (see reach), every use of the phi lies behind one successor of that test, and
+// the entry edges that can select that successor all carry the same value, that value is returned.
+func ThreadedValue(v ssa.Value) ssa.Value {
+	ph, ok := v.(*ssa.Phi)
+	if !ok {
+		return v
+	}
+	if a, ok := threadedCache[ph]; ok {
+		if a == nil {
+			return v
+		}
+		return a
+	}
+	threadedCache[ph] = nil
+	j := ph.Block()
+	iff, ok := lastIf(j)
+	if !ok || len(j.Succs) != 2 || ph.Referrers() == nil {
+		return v
+	}
+	for k, s := range j.Succs {
+		if len(s.Preds) != 1 {
+			continue
+		}
+		// all uses behind successor k?
+		allBehind := true
+		for _, r := range *ph.Referrers() {
+			if _, isDbg := r.(*ssa.DebugRef); isDbg {
+				continue
+			}
+			// the test at the end of j itself (`phi != nil`) is not a use behind a successor
+			if rv, isV := r.(ssa.Value); isV && r.Block() == j && rv.Referrers() != nil && len(*rv.Referrers()) == 1 && (*rv.Referrers())[0] == ssa.Instruction(iff) {
+				continue
+			}
+			rb := r.Block()
+			if up, isPhi := r.(*ssa.Phi); isPhi {
+				// a phi uses its operand on the incoming edge: the predecessor must be behind s
+				okEdge := false
+				for pi2, e := range up.Edges {
+					if e == ssa.Value(ph) && s.Dominates(up.Block().Preds[pi2]) {
+						okEdge = true
+					}
+				}
+				if !okEdge {
+					allBehind = false
+				}
+				continue
+			}
+			if rb == nil || !s.Dominates(rb) {
+				allBehind = false
+			}
+		}
+		if !allBehind {
+			continue
+		}
+		var val ssa.Value
+		single := true
+		for pi, p := range j.Preds {
+			if threadMask(p, j)&(1<<uint(k)) == 0 {
+				continue
+			}
+			e := ph.Edges[pi]
+			if val == nil {
+				val = e
+			} else if val != e {
+				single = false
+			}
+		}
+		if single && val != nil && val != ssa.Value(ph) {
+			threadedCache[ph] = val
+			return val
+		}
+	}
+	return v
+}
+
+var threadedCache = map[*ssa.Phi]ssa.Value{}
 
 // Reachable reports whether target is reachable from the function entry under the cuts.
 func Reachable(target *ssa.BasicBlock, cuts Cuts) bool {
@@ -252,6 +504,25 @@ var predDepth = 0
 // helper can return `pol` are added, rendered with the helper's parameters replaced by the call's
 // arguments, so that moving a guard into a helper does not hide it from the rules.
 func expandPredicate(cl *ssa.Call, pol bool, at *ssa.BasicBlock, depth int, errNil bool) []Fact {
+	ways := predicateWays(cl, pol, errNil)
+	if len(ways) == 0 {
+		return nil
+	}
+	acc := ways[0]
+	for _, w := range ways[1:] {
+		acc = intersect(acc, w)
+	}
+	var out []Fact
+	for _, f := range acc {
+		out = append(out, Fact{Cond: f.Cond, Pol: f.Pol, Atom: f.Atom, If: at, Via: cl})
+	}
+	return out
+}
+
+// predicateWays lists, for a call to a boolean (or error-returning) helper of the repository, the
+// ways the helper can return pol (nil): one conjunction of facts per way, rendered in the caller's
+// vocabulary.
+func predicateWays(cl *ssa.Call, pol bool, errNil bool) [][]Fact {
 	callee := cl.Call.StaticCallee()
 	if callee == nil || len(callee.Blocks) == 0 || callee.Pkg == nil || !strings.HasPrefix(callee.Pkg.Pkg.Path(), ModulePrefix) {
 		return nil
@@ -318,20 +589,12 @@ func expandPredicate(cl *ssa.Call, pol bool, at *ssa.BasicBlock, depth int, errN
 			ways = append(ways, append(append([]Fact{}, conj...), here...))
 		}
 	}
-	if len(ways) == 0 {
-		return nil
+	for i := range ways {
+		for k := range ways[i] {
+			ways[i][k].Via = cl
+		}
 	}
-	acc := ways[0]
-	for _, w := range ways[1:] {
-		acc = intersect(acc, w)
-	}
-	var out []Fact
-	for _, f := range acc {
-		// re-render under the binding (atoms computed by At/DNF already were, since the binding
-		// was active), and attach to the caller's branch block
-		out = append(out, Fact{Cond: f.Cond, Pol: f.Pol, Atom: f.Atom, If: at, Via: cl})
-	}
-	return out
+	return ways
 }
 
 func isBoolType(t types.Type) bool {
@@ -831,6 +1094,14 @@ func dnf(cond ssa.Value, pol bool, at *ssa.BasicBlock, depth int) [][]Fact {
 		if x.Op == token.NOT {
 			return dnf(x.X, !pol, at, depth+1)
 		}
+	case *ssa.Call:
+		if ways := predicateWays(x, pol, false); len(ways) > 0 {
+			var out [][]Fact
+			for _, w := range ways {
+				out = append(out, append([]Fact{{Cond: cond, Pol: pol, Atom: Atom(cond, pol), If: at}}, w...))
+			}
+			return out
+		}
 	case *ssa.Phi:
 		var out [][]Fact
 		for i, e := range x.Edges {
@@ -885,3 +1156,64 @@ func BeforeFrom(start *ssa.BasicBlock, b ssa.Instruction, cuts Cuts, pred func(s
 	}
 	return !reach(start, cuts, stop)[b.Block()]
 }
+
+// KnownNonNil is the exported form of knownNonNil.
+func KnownNonNil(v ssa.Value, b *ssa.BasicBlock) bool { return knownNonNil(v, b) }
+
+// IntrinsicNonNil: v can never be nil, wherever it is used — a freshly built value, the result of
+// fmt.Errorf / errors.New, or a load of a package-level variable that is only ever assigned such
+// values (sentinel errors).
+func IntrinsicNonNil(v ssa.Value) bool {
+	switch x := v.(type) {
+	case *ssa.MakeInterface, *ssa.Alloc, *ssa.MakeMap, *ssa.MakeSlice, *ssa.MakeChan, *ssa.MakeClosure, *ssa.Function:
+		return true
+	case *ssa.Call:
+		n := CalleeName(&x.Call)
+		return strings.HasPrefix(n, "fmt.Errorf") || strings.HasPrefix(n, "errors.New") || strings.HasPrefix(n, "google.golang.org/grpc/status.Error")
+	case *ssa.UnOp:
+		if x.Op != token.MUL {
+			return false
+		}
+		g, ok := x.X.(*ssa.Global)
+		if !ok || g.Pkg == nil {
+			return false
+		}
+		if r, ok := sentinelCache[g]; ok {
+			return r
+		}
+		sentinelCache[g] = false
+		stores, good := 0, true
+		for _, m := range g.Pkg.Members {
+			fn, ok := m.(*ssa.Function)
+			if !ok {
+				continue
+			}
+			var visit func(f *ssa.Function)
+			visit = func(f *ssa.Function) {
+				for _, b := range f.Blocks {
+					for _, ins := range b.Instrs {
+						if st, ok := ins.(*ssa.Store); ok && st.Addr == ssa.Value(g) {
+							stores++
+							if !IntrinsicNonNil(st.Val) {
+								good = false
+							}
+						}
+					}
+				}
+				for _, a := range f.AnonFuncs {
+					visit(a)
+				}
+			}
+			visit(fn)
+		}
+		// methods are not package members: a store from a method would be missed, so require the
+		// variable to be unexported-or-exported but written at least once in init and nowhere
+		// else among package-level functions; methods are scanned through the program's method sets
+		res := stores >= 1 && good
+		sentinelCache[g] = res
+		return res
+	}
+	return false
+}
+
+var sentinelCache = map[*ssa.Global]bool{}
